@@ -47,6 +47,16 @@ def tlc_api(v, cfgname):
     return res
 
 
+def run_nest(v, exe, tier, seed, tag):
+    """re-entrant parsing (MC_Nest): a function callback parses a named text into a second live context while the first
+    parse is running - at top level or inside an included file; the nested text may call functions, include, or fail"""
+    from . import nestcheck
+    c = "nest_quick.cfg" if tier == "quick" else "nest_thorough.cfg"
+    res = run_tlc("MC_Nest.tla", os.path.join("mc", c))
+    v.add_tlc(c, res, ["P_C08_NestedLeavesNoTrace", "P_C13_GoesOn", "P_C14_OwnArguments"])
+    nestcheck.replay(v, exe, res, seed=seed, tag=tag)
+
+
 def run_lex(v, exe, cfglist, seed, tag):
     for c in cfglist:
         res = run_tlc("MC_Lex.tla", os.path.join("mc", c))
@@ -151,6 +161,7 @@ def check_C14(tier, seed):
         res = tlc_api(v, c)
         res.behaviours = [b for b in res.behaviours if b["calls"][-1]["call"]["name"] in ("vi", "vs", "vf")]
         apicheck.replay(v, exe, res, aspects={"tree", "cb", "noeffect"}, seed=seed, tag="C14", sigprefix="api")
+    run_nest(v, exe, tier, seed, "C14nest")
     v.cov["exhaustive"] = True
     return v.finish(rule="every token sequence up to the configured length over a schema whose scalar, list, section and function "
                          "options carry value-parsing / validation / function callbacks, for every choice of the failing invocation "
@@ -352,6 +363,7 @@ def check_C13(tier, seed):
         v.add_tlc(c, res, ["P_C13_Flatten", "P_C13_PositionRestored", "P_C13_FailureReported", "P_C13_DepthLimit"])
         inccheck.replay(v, exe, res, aspects={"tree", "diag", "diagpos"}, seed=seed, tag="C13")
     stress.run(v, exe, tier, tag="C13", only=("include-", "parsefile-"))
+    run_nest(v, exe, tier, seed, "C13nest")
     v.cov["exhaustive"] = True
     return v.finish(rule="every main text up to the length bound over an alphabet with the include function, ten file names of a fixed "
                          "file system (plain, including another file, re-opening a section, failing, self-including, chains of 10 and 11 "
@@ -390,6 +402,7 @@ def check_C08(tier, seed):
     scancheck.replay(v, exe, res, seed=seed, tag="C08")
     # the same histories with every text handed over as a stream (cfg_parse_fp)
     scancheck.replay(v, exe, res, seed=seed, tag="C08fp", sigprefix="scan-fp", via="parsefp")
+    run_nest(v, exe, tier, seed, "C08nest")
     w = run_tlc("MC_Scan.tla", os.path.join("mc", "scan_unrepaired.cfg"), want_behaviours=False)
     if "P_C08_Clean" not in w.violated:
         raise ModelError("vacuity witness failed: the unrepaired scanner model should violate P_C08_Clean")
